@@ -52,6 +52,12 @@ theorem pin_hmac : Gen.hmacIpad = 0x36 ∧ Gen.hmacOpad = 0x5C ∧
     hmacBlockSize algSha1 = 64 ∧ hmacBlockSize algSha256 = 64 ∧ hmacBlockSize algSha512 = 128 ∧
     algSha1.digestSize = 20 ∧ algSha256.digestSize = 32 ∧ algSha512.digestSize = 64 := by decide
 
+/-- the two-word bit counters of `MD5Update` / `crypto_SHA1_Update` as the models `Md5.update` /
+    `Sha1.update` have them (`<<< 3`, `>>> 29`): the high word moves only after 2^29 bytes, beyond
+    any differential run, so the statements are translated from the source and pinned here; the
+    theorems `md5_bitcount_exact` / `sha1_bitcount_exact` below are about exactly these numbers -/
+theorem pin_len_shifts : Gen.md5LenShifts = (3, 29) ∧ Gen.sha1LenShifts = (3, 29) := by decide
+
 /-! ### the specification's padding is FIPS 180-4 §5.1 / RFC 1321 §3.1–3.2 -/
 
 /-- the number of zero bytes is the smallest `z` with `n + 1 + z + lenBytes ≡ 0 (mod bs)`,
